@@ -55,6 +55,28 @@ CLAIMED.update({
         "construct_rejects_infeasible_start, run_from_construct_feasible. Correspondence: provenance replay through Pipe.step with the constraint answers recorded from the run; the user's constraint is re-asked at every point passed "
         "to the target and at the returned x; construction with start points infeasible before/after snapping must raise ValueError with zero target calls.",
    design="5 / C02", technique="Lean 4 invariant over the pipeline model + provenance trace refinement"),
+ "C14": dict(
+   text="Theorems (Props/C14.lean), for every dimension and every outcome of the generator's random choices: dirs_det (det = sign(perm) * prod(+-nmax), via Mathlib's determinant of permuted lower-triangular matrices), "
+        "dirs_nonsingular, dirs_positive_spanning (every rational vector is a non-negative combination of the 2n directions), dirs_entries_bounded, dirs_default_are_signed_unit_vectors, pollLoop_nodup_sub "
+        "(polled points pairwise distinct, at most the candidate count), basis_length = 2n, poll_points_form. Correspondence: poll_mads_2n under a scripted random source (exhaustive for the small scopes listed in the evidence, "
+        "sampled up to D=6, mesh ratios 1,2,4) vs Poll.basis; Lean predicates on the implementation's basis; every poll step of traced runs (points = incumbent + mesh*direction, each direction once, <= 2D).",
+   design="5 / C14", technique="Lean 4 (Mathlib determinant) proof for all dimensions/draws + scripted-RNG differential"),
+ "C04": dict(
+   text="Theorems (Props/C04.lean) about Inc.step for every sequence of evaluated points and returned values (any target incl. plateaus/ties, any candidate generation): inc_init, inc_search, inc_poll, inc_reachable "
+        "(the incumbent is an evaluated pair and a minimum of everything evaluated), result_truthful, hist_fval_antitone, never_worse_than_start (per-run clause of C06); default-policy hypotheses re-proved from the regenerated options. "
+        "Correspondence: every search/poll step of deterministic traced runs replayed through Inc.step; result clauses evaluated against the target wrapper's own (x, y) call log.",
+   design="5 / C04", technique="Lean 4 invariant by induction over evaluations + trace-refinement correspondence"),
+ "C05": dict(
+   text="Theorems (Props/C05.lean): final_point_is_iterate, argminFrom1_spec (first minimiser of the quantile values over iterates 1..), fval_is_mean, yvec_single_supplemented, yvec_several, sqDev_nonneg, noise_detected_iff, "
+        "identical_values_not_noisy; with C19's run_pinv the returned point is a point evaluated earlier. Correspondence: incumbent/history/final-estimate bookkeeping of every traced run replayed through Noisy.iterStep / finalChoice / yvalVec "
+        "with the run's oracle values; clauses (last calls at returned x, yval_vec, mean, SEM, ysd_vec, target_type, noise detection rule) evaluated on the run's call log. Budget interplay is C03's total_calls_le.",
+   design="5 / C05", technique="Lean 4 theorems over the final-selection/estimate model + trace-refinement correspondence"),
+ "C19": dict(
+   text="Run level (Props/C19.lean): for every sequence of candidates, GP estimates, re-estimated history values and final quantile values: iterStep_pinv / run_pinv (u = u_best at iteration boundaries; the incumbent pair and every "
+        "recorded iterate are pairs the log returned together), reEvalSwap_pinv, finalChoice_pinv (the returned point is a recorded iterate with its own value). Container level (Props/C19Container.lean): get_record, record_frame, "
+        "record_errors, record_keys, res_set_unknown, res_get_agree, res_set_get. Correspondence: run-level replay through Noisy.iterStep, clauses on the call log (under specified noise: within the range of the observations at x, "
+        "via C12's merged_value_within_range); container differential with mutable values mutated after recording (aliasing is heap behaviour: tested, not proved).",
+   design="5 / C19", technique="Lean 4 invariants (run-level model + container model) + trace refinement and container differential"),
 })
 
 NA = {
